@@ -49,6 +49,7 @@ def run(ctx, res):
     for site in sites:
         LR.rule_l_recheck(la, res, site)
         LR.rule_l_recheck_nested(la, res, site)
+        LR.rule_refusal_ends_wait(la, res, site)
         site = dict(site, reads=LR.full_reads(site))
         if site["loop"]:
             LR.rule_l_cv(la, res, site)
@@ -61,6 +62,7 @@ def run(ctx, res):
     res.guard(RR.rule_consume_file, prog, res, "video_sink_thread", "append")
     res.guard(RR.rule_pairs, prog, res, ["video_sink_thread", "process_data", "acquire_stop"])
     res.require_min("R-CONSUME", 2)
+    res.require_min("L-REFUSE-WAKES", 1)
     res.require_min("PAIR", 4)
     from .. import platformrules as PR
     PR.run_all(prog, la, res)
